@@ -258,6 +258,18 @@ func c16RoundTrips(kv map[string]string, conflict bool, want map[string]any, fai
 				fail = append(fail, fmt.Sprintf("encoder %d failed: %v", ei, err))
 				continue
 			}
+			// a target that gives up somewhere inside the text (at the first byte, in the middle, at the last byte): the
+			// encoder says so — a caller that is told "written" reads back the pairs it wrote
+			if b.Len() > 0 {
+				for _, n := range []int{0, b.Len() / 2, b.Len() - 1} {
+					var werr error
+					if pn := guard(func() { werr = encFn(&failAfterW{n: n}, toAnyMap(kv)) }); pn != "" {
+						fail = append(fail, fmt.Sprintf("encoder %d panicked on a writer failing after %d bytes: %s", ei, n, pn))
+					} else if werr == nil {
+						fail = append(fail, fmt.Sprintf("encoder %d: writer failing after %d of %d bytes, yet the encoder reports success", ei, n, b.Len()))
+					}
+				}
+			}
 			if !conflict {
 				back := map[string]any{}
 				if err := props.DecoderFn(&b, &back); err != nil {
